@@ -38,28 +38,35 @@ fn num(args: &[String], i: usize, default: u64) -> u64 {
 
 // probe TAG [extra...]: record an observation in the simulator's event log (no I/O).
 simple!(Probe, |context, args| {
+    // the scheduling point comes first: everything recorded below is observed at the
+    // instant the event gets its sequence number
+    world::yield_point(world::OP_PROBE, 0, 0);
     let status = context.shell.last_exit_status();
     let depth = context.shell.depth();
     let jobs: Vec<usize> = context.shell.jobs().jobs.iter().map(|j| j.id).collect();
     let tag = args.first().cloned().unwrap_or_default();
-    let extra = args.iter().skip(1).cloned().collect();
+    let wd = context.shell.working_dir().to_path_buf();
+    let extra = args
+        .iter()
+        .skip(1)
+        .map(|a| match a.strip_prefix('@') {
+            Some(f) => std::fs::read_to_string(wd.join(f)).unwrap_or_else(|_| "<missing>".into()),
+            None => a.clone(),
+        })
+        .collect();
     world::probe_event(tag, status, depth, jobs, extra);
     // leave $? as it was so that probes are transparent to the program
     Ok(ExecutionResult::new(status))
 });
 
-// simseq N [TAG] [PAD]: N lines "TAG<i>" each padded with 'x' to PAD bytes (before newline).
+// simseq N [TAG] [PADLEN]: N lines "TAG<i>" followed by PADLEN 'x' characters.
 simple!(SimSeq, |context, args| {
     let n = num(args, 0, 1);
     let tag = args.get(1).cloned().unwrap_or_default();
-    let pad = num(args, 2, 0) as usize;
+    let pad = "x".repeat(num(args, 2, 0) as usize);
     let mut out = context.stdout();
     for i in 1..=n {
-        let mut line = format!("{tag}{i}");
-        while line.len() < pad {
-            line.push('x');
-        }
-        line.push('\n');
+        let line = format!("{tag}{i}{pad}\n");
         out.write_all(line.as_bytes())?;
     }
     out.flush()?;
@@ -133,6 +140,7 @@ simple!(SimSleep, |_context, args| {
 // simres TAG: sample resource counters inside the shell.
 simple!(SimRes, |context, args| {
     let tag = args.first().cloned().unwrap_or_default();
+    world::yield_point(world::OP_PROBE, 1, 0);
     let r = crate::runner::sample_resources(context.shell);
     let status = context.shell.last_exit_status();
     world::probe_event(
